@@ -47,6 +47,15 @@ PROFILES = {
                 "imports": ["Sylvia.Model.RustSem", "Sylvia.Model.RustExtern"], "opens": "open RustSem RustExtern",
                 "vars": "variable {Binary Coin : Type}", "str": "String", "only": None, "tparams": ["Binary", "Coin"],
                 "extern_types": {"WasmMsg": "WasmMsg Binary Coin"}, "extern_enums": {"WasmMsg": ["Instantiate", "Instantiate2"]}},
+    # `ReplyData::emit_cw_reply_on` (C08): which reply trigger the generated sub-message builder requests for a handler name, from the
+    # (method, outcome) pairs merged under it; `quote!{..}` results are kept as their token text
+    "replydata": {"src": ("sylvia-derive", "src", "contract", "communication", "reply.rs"), "out": "ReplyDataFns.lean", "ns": "Extracted.ReplyDataFns",
+                  "imports": ["Sylvia.Model.RustSem", "Sylvia.Extracted.ReplyOnFns"], "opens": "open RustSem Extracted.ReplyOnFns",
+                  "vars": "variable {Ident MsgField : Type}", "str": "String", "only": ["ReplyData.emit_cw_reply_on"], "only_enums": [],
+                  "only_structs": ["ReplyData"], "tparams": ["Ident", "MsgField"],
+                  "extern_types": {"ReplyOn": "ReplyOn", "TokenStream": "String"},
+                  "extern_enum_fields": {"ReplyOn": {"Success": [], "Error": [], "Always": []}},
+                  "extern_calls": {"crate_module": "()"}},
     # the bridge to chain-custom types (C11): `IntoMsg::into_msg` and `IntoResponse::into_response`, trait methods on cosmwasm_std's
     # SubMsg / Response (declared in Sylvia/Model/RustExtern.lean); arms compiled under `#[cfg(feature = "..")]` become
     # `if feat ".." then <arm> else <the wildcard arm>`, so the regenerated function is the code under every feature set at once
@@ -244,6 +253,8 @@ class FnTr:
             return k(lean_str(e[1]))
         if t == "format":
             return k("(fmt %s)" % lean_str(e[1]))
+        if t == "quote":
+            return k(lean_str(e[1]))
         if t == "try":
             if self.depth:
                 raise Unsupported("`?` inside a loop")
@@ -332,8 +343,13 @@ class FnTr:
                 return self.ex(e[1], lambda r: k("(toLower %s)" % r))
             if name == "char_indices" and not e[3]:
                 return self.ex(e[1], lambda r: k("(charIndices %s)" % r))
-            if name == "into_iter" and not e[3]:
-                return self.ex(e[1], k)      # an owned Vec iterated in order: the list itself
+            if name in ("into_iter", "iter") and not e[3]:
+                return self.ex(e[1], k)      # a Vec / slice iterated in order: the list itself
+            if name in ("any", "all") and len(e[3]) == 1 and e[3][0][0] == "closure" and len(e[3][0][1]) == 1:
+                cl = e[3][0]
+                cpat = self.pat(cl[1][0])
+                body = self.pure(cl[2])
+                return self.ex(e[1], lambda r: k("(List.%s %s (fun %s => %s))" % (name, r, cpat, body)))
             if name == "collect" and not e[3]:
                 src = e[1]
                 turbo = (e[4] if len(e) > 4 else None) or ""
@@ -743,7 +759,8 @@ class ModTr:
         if self.profile.get("only") is not None and (self.profile["only"] or tonly):
             only = self.profile["only"]
             ast = dict(ast, fns=[f for f in ast["fns"] if f["name"] in only],
-                       enums=[e for e in ast["enums"] if e["name"] in self.profile.get("only_enums", [])], structs=[],
+                       enums=[e for e in ast["enums"] if e["name"] in self.profile.get("only_enums", [])],
+                       structs=[s_ for s_ in ast.get("structs", []) if s_["name"] in self.profile.get("only_structs", [])],
                        methods=[m for m in ast.get("methods", []) if m["owner"] + "." + m["name"] in only])
             missing = [n for n in only if n not in [f["name"] for f in ast["fns"]] + [m["owner"] + "." + m["name"] for m in ast["methods"]]]
             have = [m["owner"] + "." + m["name"] for m in ast.get("trait_methods", [])]
@@ -811,6 +828,10 @@ class ModTr:
             if t[1] == "Into<String>":
                 return "String"      # `.into()` on such an argument is modelled as the identity
             raise Unsupported("impl-trait type %s" % t[1])
+        if k == "ttuple":
+            return " × ".join(FnTr.paren_ty(self.ty(x)) for x in t[1])
+        if k == "tapp" and not t[2]:
+            return self.ty(["tpath", t[1]])
         if k == "tapp":
             name = t[1][-1]
             if name == "Option" and len(t[2]) == 1:
